@@ -141,6 +141,11 @@ func (l *LocationCursor) ReadMeta(filterOpts *FilterOptions, dst *record.Record,
 			return nil, err
 		}
 		l.pos++
+		if rec == nil {
+			// this file holds no value of the queried columns in the time range;
+			// nil would tell the caller that the series is exhausted, so go on with the next file
+			continue
+		}
 
 		if readCxt.onlyFirstOrLast {
 			l.pos = len(l.lcs)
@@ -169,10 +174,11 @@ func (l *LocationCursor) ReadOutOfOrderMeta(filterOpts *FilterOptions, dst *reco
 		if err != nil {
 			return nil, err
 		}
-		if midRec == nil {
-			break
-		}
 		l.pos++
+		if midRec == nil {
+			// nothing for the queried columns in this file: the following files still have to be folded
+			continue
+		}
 		if rec == nil {
 			rec = midRec.Copy(true, nil, midRec.Schema)
 			continue
